@@ -96,6 +96,9 @@ Proof.
     destruct ptr.
     + apply bind_no_panic; [|reflexivity]. destruct code, j; try reflexivity; try apply Hhex; try apply Hobj.
     + destruct j; try reflexivity; try apply Hhex. destruct code; [apply Hobj|reflexivity].
+  - cbn [jdecode]. destruct j; try reflexivity.
+    + apply bind_no_panic; [apply decode_hex_np|reflexivity].
+    + destruct (jlookup key l) as [[]|]; try reflexivity. apply bind_no_panic; [apply decode_hex_np|reflexivity].
 Qed.
 
 Theorem jdecode_total : forall s j, (exists v, jdecode true s j = Ok v) \/ (exists e, jdecode true s j = Err e).
@@ -156,6 +159,7 @@ Proof.
   - destruct v; try reflexivity. destruct alts as [|a0 r0] eqn:Ea; [reflexivity|]. rewrite <- Ea in *.
     apply find_alt_np. eapply Forall_impl; [|exact H]. intros a Ha. apply Ha.
   - destruct ptr; [destruct v; try reflexivity|]; destruct v; reflexivity.
+  - destruct v; reflexivity.
 Qed.
 
 Theorem jencode_top_no_panic : forall s v, is_panic (jencode_top s v) = false.
